@@ -153,6 +153,7 @@ def run(ctx, R, tier):
     seek_landing(F, R)
     load_append(F, R)
     rate_rule(F, R)
+    chunk_lookup(F, R)
     # streaming yields the frames the decoder produced: silence only past the end of the audio (the C09 rule)
     from .c09 import frame_source
     frame_source(F, R)
@@ -247,6 +248,16 @@ def seek_landing(F, R):
                     '(stores: %s): the following chunk is labelled with the wrong start frame' % (b.path, [d[:80] for _, d in stores]),
                     detail={'caller': b.path, 'recorded': 'result of Decoder::seek'}, where=b.where(sb))
     R.floor('B.C18.seek', n, 3)
+    # ... while the PLAYBACK position is the one that was asked for: the transport of a new streaming sound starts at the
+    # requested start position (frames between the seek's landing point and the request are decoded and skipped), never at
+    # the packet boundary the decoder happened to land on
+    nb = F.body('sound::streaming::sound::decode_scheduler::DecodeScheduler::<Error>::new')
+    if R.check(nb is not None, 'B.C18.seek', 'anchor:new', 'DecodeScheduler::new not found'):
+        from ..paths import describe as _d2
+        tn = [(bb, _d2(nb, t['args'][0], depth=8, at=bb)) for bb, t in nb.calls() if (callee_path(t) or '') == 'sound::transport::Transport::new']
+        okn = len(tn) == 1 and 'start_position' in tn[0][1] and SEEK + '(' not in tn[0][1] and '::seek(' not in tn[0][1]
+        R.check(okn, 'B.C18.seek', 'new:transport-start', 'a new streaming sound\'s transport starts at %s, not at the requested start position'
+                % [d[:100] for _, d in tn], detail={'start': tn[0][1][:120] if tn else None}, where=nb.file)
     # a relative seek is relative to what is being HEARD: the decoder thread's own transport runs up to a ring buffer ahead
     # of the audio thread, so `seek_by` starts from the position the audio side publishes (Shared::position)
     DSX = 'sound::streaming::sound::decode_scheduler::DecodeScheduler::<Error>'
@@ -405,3 +416,39 @@ def eof(F, R):
                     ok = False
                     why = 'a non-EOF error returns %s' % str(p.ret)[:80]
     R.check(ok and n_break >= 1, 'B.C18.eof', 'load-loop', why or 'no EOF exit found', detail={'eof_exits': n_break, 'swallowed': n_cont_err}, where=b.file)
+
+
+def chunk_lookup(F, R):
+    """The decoded chunk only answers for the frames it holds: DecodedChunk::frame_at_index returns None for an index
+    before its first frame (the caller then seeks back), and otherwise `frames.get(index - start_index)`.  Folding the test
+    into a saturating subtraction makes a backward move return the chunk's first frame instead."""
+    b = F.body('sound::streaming::sound::decode_scheduler::DecodedChunk::frame_at_index')
+    if not R.check(b is not None, 'B.C18.seek', 'anchor:chunk', 'DecodedChunk::frame_at_index not found'):
+        return
+    ok = True
+    seen = set()
+    why = ''
+    for p in explore(b):
+        if p.end != 'return':
+            continue
+        before = None
+        for _, desc, lab in p.decisions:
+            from ..paths import parse_term
+            nm, ar = parse_term(desc)
+            if nm in ('Lt', 'Le') and ar and len(ar) == 2 and 'index' in ar[0] and 'start_index' in ar[1] and bool_label(lab) is not None:
+                before = bool_label(lab) if nm == 'Lt' else None
+            if 'checked_sub' in desc and lab in ('None', 'Some', '0', '1', 'Break', 'Continue'):
+                before = lab in ('None', '0', 'Break')
+        ret = str(p.ret)
+        if before is True:
+            seen.add('before')
+            if not (ret.endswith('None') or 'from_residual' in ret):
+                ok, why = False, 'an index before the chunk yields %s' % ret[:80]
+        elif before is False:
+            seen.add('inside')
+            if 'get(' not in ret or 'saturating_sub' in ret:
+                ok, why = False, 'an index inside the chunk yields %s' % ret[:80]
+        else:
+            ok, why = False, 'a path does not compare the index with the chunk\'s first frame (returns %s)' % ret[:100]
+    R.check(ok and seen == {'before', 'inside'}, 'B.C18.seek', 'chunk:before-start', 'DecodedChunk::frame_at_index: %s' % (why or sorted(seen)),
+            detail='index < start_index => None', where=b.file)
